@@ -26,6 +26,9 @@ pub struct Cmd {
     pub heredoc: bool,
     /// ends with a backslash continuation somewhere (cut inside it is not judged)
     pub continuation: bool,
+    /// probes that sit inside a command substitution which starts on an earlier line
+    #[serde(default)]
+    pub subst_tags: Vec<String>,
 }
 
 #[derive(Clone, Debug, Serialize, Deserialize)]
@@ -61,7 +64,7 @@ impl Gen<'_> {
     /// a body of 1-2 inner commands (lines indented), returning (lines, tags, out, heredoc, cont)
     fn body(&mut self, depth: u32) -> Cmd {
         let k = self.rng.range(1, 2);
-        let mut c = Cmd { lines: vec![], tags: vec![], out: String::new(), heredoc: false, continuation: false };
+        let mut c = Cmd { lines: vec![], tags: vec![], out: String::new(), heredoc: false, continuation: false, subst_tags: vec![] };
         for _ in 0..k {
             let inner = self.cmd(depth + 1, true);
             // no indentation: here-document terminators and quoted strings must stay intact
@@ -70,6 +73,7 @@ impl Gen<'_> {
             c.out.push_str(&inner.out);
             c.heredoc |= inner.heredoc;
             c.continuation |= inner.continuation;
+            c.subst_tags.extend(inner.subst_tags);
         }
         c
     }
@@ -80,8 +84,8 @@ impl Gen<'_> {
     }
 
     fn cmd(&mut self, depth: u32, nested: bool) -> Cmd {
-        let mut c = Cmd { lines: vec![], tags: vec![], out: String::new(), heredoc: false, continuation: false };
-        let top = if depth >= 2 { 6 } else { 17 };
+        let mut c = Cmd { lines: vec![], tags: vec![], out: String::new(), heredoc: false, continuation: false, subst_tags: vec![] };
+        let top = if depth >= 2 { 6 } else { 31 };
         match self.rng.below(top) {
             0..=2 => {
                 let (l, t) = self.probe_line();
@@ -120,6 +124,7 @@ impl Gen<'_> {
                 c.out = b.out;
                 c.heredoc = b.heredoc;
                 c.continuation = b.continuation;
+                c.subst_tags = b.subst_tags.clone();
             }
             7 => {
                 let b = self.body(depth);
@@ -131,6 +136,7 @@ impl Gen<'_> {
                 c.out = format!("{}{}", b.out, b.out);
                 c.heredoc = b.heredoc;
                 c.continuation = b.continuation;
+                c.subst_tags = b.subst_tags.clone();
             }
             8 => {
                 let b = self.body(depth);
@@ -142,6 +148,7 @@ impl Gen<'_> {
                 c.out = b.out;
                 c.heredoc = b.heredoc;
                 c.continuation = b.continuation;
+                c.subst_tags = b.subst_tags.clone();
             }
             9 => {
                 let i = self.id();
@@ -188,6 +195,114 @@ impl Gen<'_> {
                 let i = self.id();
                 c.lines.push(format!("# comment {i} with 'quote and \"dq"));
             }
+            16 => {
+                let i = self.id();
+                c.lines.push(format!("echo $'ansi {i}"));
+                c.lines.push("tail'".to_string());
+                c.out = format!("ansi {i}\ntail\n");
+            }
+            17 => {
+                let i = self.id();
+                c.lines.push(format!("echo 'single {i}"));
+                c.lines.push("tail'".to_string());
+                c.out = format!("single {i}\ntail\n");
+            }
+            18 => {
+                let i = self.id();
+                c.lines.push(format!("arr{i}=(a"));
+                c.lines.push("b c)".to_string());
+                c.lines.push(format!("probe p{i} $LINENO ${{#arr{i}[@]}}"));
+                c.tags.push(format!("p{i}"));
+            }
+            19 => {
+                c.lines.push("echo $(( 1 +".to_string());
+                c.lines.push("2 ))".to_string());
+                c.out = "3\n".into();
+            }
+            20 => {
+                let (l, t) = self.probe_line();
+                c.lines.push("[[ a == a &&".to_string());
+                c.lines.push(format!("b == b ]] && {l}"));
+                c.tags.push(t);
+            }
+            21 => {
+                let i = self.id();
+                c.lines.push("echo `".to_string());
+                c.lines.push(format!("echo bt{i}"));
+                c.lines.push("`".to_string());
+                c.out = format!("bt{i}\n");
+            }
+            22 => {
+                let b = self.body(depth);
+                c.lines.push("while false; do".into());
+                c.lines.extend(b.lines.clone());
+                c.lines.push("done".into());
+                c.heredoc = b.heredoc;
+                c.continuation = b.continuation;
+                c.subst_tags = b.subst_tags.clone();
+            }
+            23 => {
+                let b = self.body(depth);
+                let i = self.id();
+                c.lines.push(format!("for ((k{i}=0; k{i}<1; k{i}++)); do"));
+                c.lines.extend(b.lines.clone());
+                c.lines.push("done".into());
+                c.tags = b.tags;
+                c.out = b.out;
+                c.heredoc = b.heredoc;
+                c.continuation = b.continuation;
+                c.subst_tags = b.subst_tags.clone();
+            }
+            24 => {
+                let b = self.body(depth);
+                let (l, t) = self.probe_line();
+                c.lines.push("if false; then".into());
+                c.lines.push(":".into());
+                c.lines.push("elif true; then".into());
+                c.lines.extend(b.lines.clone());
+                c.lines.push(l);
+                c.lines.push("fi".into());
+                c.tags = b.tags;
+                c.tags.push(t);
+                c.out = b.out;
+                c.heredoc = b.heredoc;
+                c.continuation = b.continuation;
+                c.subst_tags = b.subst_tags.clone();
+            }
+            25 => {
+                let i = self.id();
+                c.lines.push("{".into());
+                c.lines.push(format!("echo hidden{i}"));
+                c.lines.push("} > /dev/null".into());
+            }
+            26 => {
+                let (l, t) = self.probe_line();
+                c.lines.push(format!("! {l} # trailing comment"));
+                c.tags.push(t);
+            }
+            27 => {
+                let i = self.id();
+                c.lines.push(format!("echo \"dq {i} $("));
+                c.lines.push("echo inner".to_string());
+                c.lines.push(") end\"".to_string());
+                c.out = format!("dq {i} inner end\n");
+            }
+            29 => {
+                // $LINENO inside a command substitution that starts on an earlier line
+                let i = self.id();
+                c.lines.push(format!("y{i}=$("));
+                c.lines.push(format!("probe p{i} $LINENO"));
+                c.lines.push(")".into());
+                c.tags.push(format!("p{i}"));
+                c.subst_tags.push(format!("p{i}"));
+            }
+            28 => {
+                let i = self.id();
+                c.lines.push(format!("v{i}=${{UNSET_C15:-dflt"));
+                c.lines.push("more}".to_string());
+                c.lines.push(format!("probe p{i} $LINENO \"$v{i}\""));
+                c.tags.push(format!("p{i}"));
+            }
             15 if !nested => {
                 c.lines.push(String::new());
             }
@@ -205,10 +320,10 @@ impl Gen<'_> {
     fn func(&mut self) -> (Cmd, Cmd) {
         let i = self.id();
         let b = self.body(1);
-        let mut def = Cmd { lines: vec![format!("fn{i}() {{")], tags: vec![], out: String::new(), heredoc: b.heredoc, continuation: b.continuation };
+        let mut def = Cmd { lines: vec![format!("fn{i}() {{")], tags: vec![], out: String::new(), heredoc: b.heredoc, continuation: b.continuation, subst_tags: b.subst_tags.clone() };
         def.lines.extend(b.lines.clone());
         def.lines.push("}".into());
-        let call = Cmd { lines: vec![format!("fn{i}")], tags: b.tags, out: b.out, heredoc: false, continuation: false };
+        let call = Cmd { lines: vec![format!("fn{i}")], tags: b.tags, out: b.out, heredoc: false, continuation: false, subst_tags: vec![] };
         (def, call)
     }
 }
@@ -220,12 +335,16 @@ fn normalise(cmds: Vec<Cmd>) -> Vec<Cmd> {
         // the two-line forms `simexit N` / `probe` and `x=$(...)` / `probe` are two commands
         let is_status_pair = c.lines.len() == 2 && c.lines[0].starts_with("simexit ");
         let is_subst_pair = c.lines.len() == 4 && c.lines[0].starts_with('x') && c.lines[0].ends_with("=$(");
+        let is_two_plus_probe = c.lines.len() == 3 && (c.lines[0].starts_with("arr") || (c.lines[0].starts_with('v') && c.lines[0].contains("=${UNSET_C15"))) && c.lines[2].starts_with("probe ");
         if is_status_pair {
-            out.push(Cmd { lines: vec![c.lines[0].clone()], tags: vec![], out: String::new(), heredoc: false, continuation: false });
-            out.push(Cmd { lines: vec![c.lines[1].clone()], tags: c.tags.clone(), out: String::new(), heredoc: false, continuation: false });
+            out.push(Cmd { lines: vec![c.lines[0].clone()], tags: vec![], out: String::new(), heredoc: false, continuation: false, subst_tags: vec![] });
+            out.push(Cmd { lines: vec![c.lines[1].clone()], tags: c.tags.clone(), out: String::new(), heredoc: false, continuation: false, subst_tags: vec![] });
+        } else if is_two_plus_probe {
+            out.push(Cmd { lines: c.lines[..2].to_vec(), tags: vec![], out: String::new(), heredoc: false, continuation: false, subst_tags: vec![] });
+            out.push(Cmd { lines: vec![c.lines[2].clone()], tags: c.tags.clone(), out: String::new(), heredoc: false, continuation: false, subst_tags: vec![] });
         } else if is_subst_pair {
-            out.push(Cmd { lines: c.lines[..3].to_vec(), tags: vec![], out: String::new(), heredoc: false, continuation: false });
-            out.push(Cmd { lines: vec![c.lines[3].clone()], tags: c.tags.clone(), out: String::new(), heredoc: false, continuation: false });
+            out.push(Cmd { lines: c.lines[..3].to_vec(), tags: vec![], out: String::new(), heredoc: false, continuation: false, subst_tags: vec![] });
+            out.push(Cmd { lines: vec![c.lines[3].clone()], tags: c.tags.clone(), out: String::new(), heredoc: false, continuation: false, subst_tags: vec![] });
         } else {
             out.push(c);
         }
@@ -528,13 +647,28 @@ fn judge_delivery(case: &Case, v: &mut Verdict) {
         ));
         return;
     }
+    // probes inside a multi-line command substitution carry a $LINENO that is a known finding:
+    // they are compared separately so that the rest of the case is still judged
+    let subst: std::collections::HashSet<String> = case.cmds.iter().flat_map(|c| c.subst_tags.iter().cloned()).collect();
+    let masked = |t: &Trace| -> Trace {
+        let mut m = t.clone();
+        for p in &mut m.probes {
+            if subst.contains(&p.0) {
+                p.2 = vec!["<lineno inside $( )>".to_string()];
+            }
+        }
+        m
+    };
+    let mut pending_known: Option<Violation> = None;
+    let base_m = masked(base);
     for (m, t) in traces.iter().skip(1) {
-        if t != base {
+        let t_m = masked(t);
+        if t_m != base_m {
             let what = if t.probes.iter().map(|p| &p.0).ne(base.probes.iter().map(|p| &p.0)) {
                 "probes"
             } else if t.probes.iter().map(|p| p.1).ne(base.probes.iter().map(|p| p.1)) {
                 "statuses"
-            } else if t.probes.iter().map(|p| &p.2).ne(base.probes.iter().map(|p| &p.2)) {
+            } else if t_m.probes.iter().map(|p| &p.2).ne(base_m.probes.iter().map(|p| &p.2)) {
                 "lineno"
             } else if t.out != base.out {
                 "stdout"
@@ -546,6 +680,14 @@ fn judge_delivery(case: &Case, v: &mut Verdict) {
                 format!("{m:?} differs from ScriptFile in {what}: {:?} vs {:?}; script={script:?}", short_trace(t), short_trace(base)),
             ));
             return;
+        }
+        if t != base && pending_known.is_none() {
+            let mut x = viol(
+                "C15/delivery/lineno",
+                format!("{m:?} differs from ScriptFile in $LINENO inside a multi-line command substitution: {:?} vs {:?}; script={script:?}", short_trace(t), short_trace(base)),
+            );
+            x.known_shape = Some("lineno-inside-multiline-command-substitution".into());
+            pending_known = Some(x);
         }
     }
 
@@ -579,10 +721,11 @@ fn judge_delivery(case: &Case, v: &mut Verdict) {
             return;
         }
         let t = trace_of(&r);
-        if &t != base {
+        let stdin_whole = &traces.last().unwrap().1;
+        if &t != stdin_whole {
             v.violation = Some(viol(
                 "C15/stdin/chunking-changes-result",
-                format!("stdin delivered in chunks {chunks:?} (reader buffer {buf}) gives {:?}, whole gives {:?}; script={script:?}", short_trace(&t), short_trace(base)),
+                format!("stdin delivered in chunks {chunks:?} (reader buffer {buf}) gives {:?}, whole gives {:?}; script={script:?}", short_trace(&t), short_trace(stdin_whole)),
             ));
             return;
         }
@@ -656,6 +799,9 @@ fn judge_delivery(case: &Case, v: &mut Verdict) {
         if inside && !not_judged {
             v.stats.probe("eof_inside_multiline_command");
         }
+    }
+    if pending_known.is_some() {
+        v.violation = pending_known;
     }
 }
 
